@@ -132,6 +132,7 @@ import JdProofs.MergePrecision
 import JdProofs.KeysMergeB
 import JdProofs.KeysMerge
 import JdProps.C01Precision
+import JdProps.C01Void
 
 set_option autoImplicit false
 
